@@ -26,9 +26,33 @@ use crate::Value;
 ///
 /// The most natural way to traverse a singly linked list is probably by using
 /// the `list_iter` method.
-#[derive(PartialEq, Clone)]
+#[derive(PartialEq)]
 pub struct Cons {
     inner: Box<(Value, Value)>,
+}
+
+impl Clone for Cons {
+    /// Clones the chain of cells iteratively, so that the stack use does not
+    /// depend on the length of the list.
+    fn clone(&self) -> Self {
+        let mut head = Cons::new(self.car().clone(), Value::Null);
+        let mut tail = &mut head;
+        let mut cursor = self.cdr();
+        loop {
+            match cursor {
+                Value::Cons(next) => {
+                    tail.set_cdr(Value::Cons(Cons::new(next.car().clone(), Value::Null)));
+                    tail = tail.cdr_mut().as_cons_mut().unwrap();
+                    cursor = next.cdr();
+                }
+                other => {
+                    tail.set_cdr(other.clone());
+                    break;
+                }
+            }
+        }
+        head
+    }
 }
 
 impl fmt::Debug for Cons {
